@@ -66,6 +66,11 @@ func (w *workingState[S, T]) Rebase(
 
 	var invalidated []T
 
+	// Transactions that still apply, by position:
+	// the same transaction value may be pending more than once,
+	// and only some of its occurrences may survive the rebase.
+	kept := make([]T, 0, len(w.Txs))
+
 	for _, tx := range w.Txs {
 		newState, err := w.addTx(ctx, w.curState, tx)
 		if err != nil {
@@ -84,13 +89,12 @@ func (w *workingState[S, T]) Rebase(
 		// We have new state from successfully applying this transaction.
 		w.curState = newState
 		w.isUpdated = true
+		kept = append(kept, tx)
 	}
 
 	// All transactions were applied or invalidated.
-	// Prune the invalidated transactions, if any exist.
-	if len(invalidated) > 0 {
-		w.Txs = slices.DeleteFunc(w.Txs, w.txDeleter(ctx, invalidated))
-	}
+	// Keep exactly the ones that were applied to curState.
+	w.Txs = kept
 
 	return rebaseResponse[T]{Invalidated: invalidated}
 }
